@@ -128,6 +128,23 @@ func (g *Gen) indexable(t *Tbl) []*Col {
 	return out
 }
 
+// predicate draws the WHERE clause of a partial index in the shapes people write: bare,
+// parenthesised, ending in a list or in a function call.
+func (g *Gen) predicate(c *Col) string {
+	switch g.T.Weighted("predicate-shape", 3, 2, 1, 1) {
+	case 1:
+		return "(" + q(c.Name) + " IS NOT NULL)"
+	case 2:
+		if kindOf(c.Type) == "text" {
+			return q(c.Name) + " <> lower('ADMIN')"
+		}
+		return q(c.Name) + " IN (1, 2)"
+	case 3:
+		return q(c.Name) + " IS NOT NULL AND (" + q(c.Name) + " <> 0)"
+	}
+	return q(c.Name) + " IS NOT NULL"
+}
+
 func (g *Gen) newIdx(t *Tbl) *Idx {
 	cols := g.indexable(t)
 	if len(cols) == 0 {
@@ -161,8 +178,7 @@ func (g *Gen) newIdx(t *Tbl) *Idx {
 		}
 	}
 	if g.T.Chance("partial", 1, 4) {
-		c := cols[g.T.Draw("where-col", len(cols))]
-		i.Where = q(c.Name) + " IS NOT NULL"
+		i.Where = g.predicate(cols[g.T.Draw("where-col", len(cols))])
 		g.use("partial-index")
 	}
 	if i.Unique {
@@ -537,7 +553,7 @@ func (g *Gen) Edit(s *Sch, maxTables int) string {
 			if ix.Where != "" {
 				ix.Where = ""
 			} else if cs := g.indexable(t); len(cs) > 0 {
-				ix.Where = q(cs[g.T.Draw("where-col", len(cs))].Name) + " IS NOT NULL"
+				ix.Where = g.predicate(cs[g.T.Draw("where-col", len(cs))])
 			}
 		}
 	case "add-check":
